@@ -648,7 +648,7 @@ func c06R7(c *Ctx, r *Report, w *walInfo) {
 		writeLen int64
 	}
 	var enc, dec []codec
-	for _, f := range w.funcs {
+	for _, f := range prodFuncs(c, "storage/wal") {
 		eachInstr(f, func(i ssa.Instruction) {
 			cl, ok := i.(*ssa.Call)
 			if !ok {
@@ -684,7 +684,7 @@ func c06R7(c *Ctx, r *Report, w *walInfo) {
 			if id.Name == "PutUint64" && w.ctors[f] {
 				enc = append(enc, codec{order: order, lo: lo, hi: hi, fn: f, pos: cl.Pos()})
 			}
-			if id.Name == "Uint64" && f.Signature.Recv() != nil && namedOf(f.Signature.Recv().Type()) == w.typ {
+			if id.Name == "Uint64" && (f.Signature.Recv() == nil || namedOf(f.Signature.Recv().Type()) == w.typ) {
 				dec = append(dec, codec{order: order, lo: lo, hi: hi, fn: f, pos: cl.Pos()})
 			}
 		})
@@ -724,6 +724,30 @@ func c06R8(c *Ctx, r *Report, w *walInfo) {
 		if f == nil {
 			r.Unk("C06.R8", "storage/wal.badgerWAL", cons, "-", "method not found")
 			continue
+		}
+		entryFn := f
+		// the test may live in a validation helper that is handed the index parameter
+		hasSentinel := func(g *ssa.Function) bool {
+			for _, rt := range returnsOf(g) {
+				if gl := globalOf(rt.Results[len(rt.Results)-1]); gl != nil && gl.Name() == b.sentinel {
+					return true
+				}
+			}
+			return false
+		}
+		if !hasSentinel(f) {
+			eachInstr(entryFn, func(i ssa.Instruction) {
+				cl, ok := i.(*ssa.Call)
+				if !ok || cl.Call.StaticCallee() == nil || !modLocal(cl.Call.StaticCallee()) || !hasSentinel(cl.Call.StaticCallee()) {
+					return
+				}
+				for ai, a := range cl.Call.Args {
+					if a == ssa.Value(entryFn.Params[b.param]) && ai < len(cl.Call.StaticCallee().Params) {
+						f = cl.Call.StaticCallee()
+						b.param = ai
+					}
+				}
+			})
 		}
 		// first return of the sentinel (in block order)
 		found := false
